@@ -34,7 +34,19 @@ struct DigVis {
 	}
 };
 
+// observable static facts and their run-time consequences must not depend on NDEBUG / BOOST_MULTI_ASSERT_DISABLE either: exception specifications of the
+// special members (they decide whether std::vector moves or copies arrays when it grows), triviality, and the growth behaviour itself
+template<int D> void static_facts() {
+	using A = multi::array<int, D>; using S = multi::static_array<int, D>; using R = multi::array_ref<int, D>; using V = decltype(std::declval<A&>()()); using It = typename A::iterator; using El = decltype(std::declval<A&>().elements());
+	auto f = [&](bool b) { mix(std::uint64_t(b) + 2); };
+	f(std::is_nothrow_move_constructible_v<A>); f(std::is_nothrow_move_assignable_v<A>); f(std::is_nothrow_default_constructible_v<A>); f(std::is_nothrow_destructible_v<A>); f(std::is_nothrow_swappable_v<A>); f(std::is_nothrow_copy_constructible_v<A>);
+	f(std::is_nothrow_move_constructible_v<S>); f(std::is_nothrow_move_constructible_v<V>); f(std::is_nothrow_move_constructible_v<It>); f(std::is_nothrow_copy_constructible_v<It>); f(std::is_nothrow_move_constructible_v<El>); f(std::is_nothrow_move_constructible_v<R>);
+	f(std::is_trivially_copyable_v<It>); f(std::is_trivially_destructible_v<V>); f(noexcept(std::declval<A&>().clear())); f(noexcept(std::declval<A&>().swap(std::declval<A&>()))); f(noexcept(std::declval<A const&>().size())); f(noexcept(std::declval<A const&>().num_elements()));
+	std::vector<A> vec; std::vector<L> e(static_cast<std::size_t>(D), 2); vec.emplace_back(make_extensions<D>(e), 3); auto const* p0 = vec[0].data_elements(); for(int i = 0; i < 9; ++i) vec.emplace_back(make_extensions<D>(e), i); f(vec[0].data_elements() == p0);  // grown vector: arrays moved (block kept) or copied
+}
+
 template<int D> void one(Case& c, Prog const& p) {
+	if(c.k % 64 == 0) static_facts<D>();
 	auto exts = make_extensions<D>(p.root); MV m = MV::root(p.root); sig_mix(std::uint64_t(D)); for(auto s : p.root) sig_mix(std::uint64_t(s));
 	multi::array<int, D> A(exts); { int q = 0; for(auto& e : A.elements()) e = (q++ * 7) % 11; }
 	DigVis vis{A.data_elements(), &c.rng}; Interp<DigVis> I{vis, p}; I.run(A(), m, 0, "root");
